@@ -40,9 +40,15 @@ type vfFlightScript struct {
 var vfScripts sync.Map // *dtlsconfig.HandshakeConfig -> *vfFlightScript
 var vfFilterOnce sync.Once
 
+// vfExtraFilter edits generated flights in place (installed by other checks' init functions).
+var vfExtraFilter func(key any, isClient bool, pkts []*dtlsflight.Packet)
+
 func vfInstallFilter() {
 	vfFilterOnce.Do(func() {
 		verifhook.SetFilter(func(key any, isClient bool, flight string, state, cache any, pkts []*dtlsflight.Packet) []*dtlsflight.Packet {
+			if vfExtraFilter != nil {
+				vfExtraFilter(key, isClient, pkts)
+			}
 			v, ok := vfScripts.Load(key)
 			if !ok {
 				return pkts
